@@ -12,6 +12,9 @@ import (
 	"github.com/spq/pkappa2/verifx/c03"
 	"github.com/spq/pkappa2/verifx/c07"
 	"github.com/spq/pkappa2/verifx/c14"
+	"github.com/spq/pkappa2/verifx/c05"
+	"github.com/spq/pkappa2/verifx/c08"
+	"github.com/spq/pkappa2/verifx/c15"
 	"github.com/spq/pkappa2/verifx/c17"
 	"github.com/spq/pkappa2/verifx/c18"
 	"github.com/spq/pkappa2/verifx/c19"
@@ -27,6 +30,12 @@ func main() {
 	}
 	var code int
 	switch *prop {
+	case "C05":
+		code = c05.Run(*tier)
+	case "C08":
+		code = c08.Run(*tier)
+	case "C15":
+		code = c15.Run(*tier)
 	case "C17":
 		code = c17.Run(*tier)
 	case "C01":
